@@ -631,6 +631,9 @@ func runC16(c *Ctx) error {
 		c.c16LibX(p, "kernel-sample")
 	}
 
+	if err := c.c16BroadcastClasses(); err != nil {
+		return err
+	}
 	roles := []bool{true, false}
 	for si, ts := range strs {
 		s := ts.b
@@ -905,4 +908,49 @@ func b2i(b bool) int {
 		return 1
 	}
 	return 0
+}
+
+// c16BroadcastClasses: ONE Broadcaster used on connections with and without permessage-deflate, in both orders, several
+// times: every Broadcast call of an invalid text fails with the encoding error and puts nothing on the wire, every call
+// of a valid one succeeds - whatever the Broadcaster has already been used for.
+func (c *Ctx) c16BroadcastClasses() error {
+	texts := [][]byte{[]byte("ok\x80"), {0xff}, []byte("caf\xc3"), []byte("valid \xc3\xa9"), bytes.Repeat([]byte("long valid text "), 60), append(bytes.Repeat([]byte("long invalid text "), 60), 0xc0, 0x80)}
+	for ti, text := range texts {
+		for _, order := range [][]bool{{false, true, false, true}, {true, false, true, false}} {
+			b := gws.NewBroadcaster(gws.OpcodeText, text)
+			valid := rfcValid(text)
+			for k, pd := range order {
+				conn, mc, err := c16Conn(true, true, pd, &recHandler{})
+				if err != nil {
+					return err
+				}
+				werr := b.Broadcast(conn)
+				if werr == nil { // the write itself is a queued job: wait for the queue to drain
+					done := make(chan struct{})
+					conn.Async(func() { close(done) })
+					select {
+					case <-done:
+					case <-time.After(5 * time.Second):
+					}
+				}
+				tag := fmt.Sprintf("one Broadcaster across compression classes text=%d order=%v call=%d deflate=%v", ti, order, k, pd)
+				onWire := false
+				if fs, _, perr := parseFrames(mc.written()); perr == nil {
+					for _, f := range fs {
+						onWire = onWire || f.Opcode == 1
+					}
+				}
+				switch {
+				case valid && (werr != nil || !onWire):
+					c.oracleFail(fmt.Sprintf("Broadcast of a valid text returned %v, message on the wire: %v [%s]", werr, onWire, tag), "c16-write-verdict", map[string]any{"tag": tag})
+				case !valid && (werr == nil || onWire):
+					c.oracleFail(fmt.Sprintf("Broadcast of a text that is not UTF-8 (%q) returned %v, message on the wire: %v [%s]", head(text, 24), werr, onWire, tag), "c16-write-verdict", map[string]any{"tag": tag})
+				}
+				_ = mc.Close()
+				c.count(tag, true, "kind=broadcast-classes")
+			}
+			_ = b.Close()
+		}
+	}
+	return nil
 }
